@@ -429,7 +429,7 @@ def u7(ctx):
             if o.kind == "expr" and isinstance(v, ast.Call) and (dotted(v.func) or "").endswith("MIMETYPES.guess_type") and o.path == (0,):
                 seen_guess = True
                 continue
-            if o.kind == "expr" and v is not None and not o.path and ctx.P.try_fold(fi.module, v) is not None:
+            if o.kind == "expr" and v is not None and not o.path and ctx.P.try_fold(ctx.module_at(fi, o.node), v) is not None:
                 continue      # the constant default
             if o.kind == "expr" and isinstance(v, ast.Constant):
                 continue
